@@ -207,6 +207,37 @@ def job_config(job):
     return res
 
 
+def confirm_config(v):
+    """replay a config-kernel witness on the native build (serde_json + the real Options): True = the violation shows there too"""
+    js = v.get('json') if v.get('kernel') != 'defaults' else {}
+    if js is None:
+        return False
+    e3 = driver.E3()
+    try:
+        r = e3.run('const a = 1;', js)
+    finally:
+        e3.close() if hasattr(e3, 'close') else None
+    v['native'] = {k: r.get(k) for k in ('options_error', 'options_debug')}
+    ob = str(v.get('obligation') or '')
+    err = 'options_error' in r
+    if ob.startswith('a well-typed configuration object is accepted'):
+        return err
+    if ob.startswith('a non-boolean option given a boolean is rejected'):
+        return not err
+    if ob.startswith('panic'):
+        return 'options_debug' not in r and not err
+    dbg = r.get('options_debug') or ''
+    field = v.get('field') or (v.get('info') or {}).get('field')
+    m = re.search(r'\b%s: ([^,}]*(?:\[[^\]]*\])?)' % re.escape(str(field)), dbg)
+    if err or not m:
+        return err
+    got = m.group(1).strip()
+    jn, dflt = DOCUMENTED[field]
+    exp = js.get(jn, dflt) if isinstance(dflt, bool) else dflt
+    shown = ('true' if exp else 'false') if isinstance(exp, bool) else '[]' if exp == [] else 'None' if exp is None else repr(exp)
+    return got != shown
+
+
 # ---------------------------------------------------------------- kernel C: locality
 FEATURES = {
     # option -> predicate on the skeleton spec: does the input use the governed feature?
@@ -385,7 +416,7 @@ def main(argv):
     res += common.run_jobs(MOD, 'job_patterns', [{'patterns': pl} for pl in PATTERN_LISTS])
     for r in res:
         for v in r.pop('violations', []):
-            rep.violations.append({'role': 'config:' + str(v.get('obligation') or v.get('field')), 'reproduced': True, 'replay': common.save_replay(PROP, v, {'config.json': json.dumps(v.get('json'))}),
+            rep.violations.append({'role': 'config:' + str(v.get('obligation') or v.get('field')), 'reproduced': confirm_config(v), 'replay': common.save_replay(PROP, v, {'config.json': json.dumps(v.get('json'))}),
                                    'summary': 'options kernel: %s' % json.dumps(v, default=str)[:300]})
         rep.absorb(r)
     lj = locality_jobs(rep.tier)
